@@ -6,7 +6,7 @@ from vf.runner import Acc
 ID = "C18"
 LEVEL = "model_checking"
 TECHNIQUE = "breadth-first explicit-state search over add/remove histories on two live Enum objects (histories replayed on fresh objects, canonical state hashed for de-duplication), every state compared with two ordinary dicts as reference model"
-RULE = ("initial mappings in dict form, keyword form and as the service-action table of an OpCode (incl. empty, duplicate values, falsy values, nested dict and OpCode values); the library's shipped tables must be unchanged afterwards; operations add(name,value) "
+RULE = ("initial mappings in dict form, keyword form and as the service-action table of an OpCode (incl. empty, duplicate values, falsy values, nested dict and OpCode values); the library's shipped tables must be unchanged afterwards; construction in both forms with 30 member names that could collide with a constructor parameter name (mapping, name, value, args, kwargs, ...); operations add(name,value) "
         "and remove(name) on either of two enumerations over names {A, B, 'C-D e'} x values {big int, 0, {'n':1}, OpCode, None | second int, {}, 'x', ''} (quick: the first 5); BFS to "
         "depth 4 (quick) / 5 (thorough) with de-duplication on the ordered item lists of both enumerations; in every state: keys, every getattr, "
         "reverse lookup of every alphabet value, refusal of duplicate add / missing remove, on both enumerations. states = distinct canonical "
@@ -71,9 +71,42 @@ INITS = [
 NCHUNK = 3
 
 
+PARAM_LIKE_NAMES = ["mapping", "name", "value", "key", "args", "kwargs", "self", "dict", "bases", "data", "items", "values", "attributes",
+                    "enum", "other", "m", "d", "kw", "result", "tmp", "type", "names", "members", "default", "serviceaction", "code", "opcode"]
+
+
+def check_names(form, name, shape):
+    """construction with member names that could collide with parameter names of the constructor (keyword form binds by name)"""
+    from pyscsi.utils.enum import Enum
+    if shape == "single":
+        m = collections.OrderedDict([(name, 7)])
+    elif shape == "pair":
+        m = collections.OrderedDict([(name, 7), ("zz_other", 8)])
+    else:
+        m = collections.OrderedDict([(name, {"LUN": 0, "TARGET": 1}), ("zz_flags", 5)])
+    where = "Enum(%s) with a member called %r (%s)" % ("**mapping" if form == "kw" else "mapping dict", name, shape)
+    try:
+        e = Enum(**m) if form == "kw" else Enum(dict(m))
+    except Exception as ex:   # noqa: BLE001
+        return [("names/construct_raises", "%s raised %s: %s" % (where, type(ex).__name__, ex))]
+    out = []
+    if sorted(e.keys) != sorted(m):
+        out.append(("names/keys", "%s: names %r, supplied %r" % (where, sorted(e.keys), sorted(m))))
+    for k, v in m.items():
+        try:
+            if getattr(e, k) != v:
+                out.append(("names/value", "%s: .%s is %r, supplied %r" % (where, k, getattr(e, k), v)))
+        except AttributeError:
+            out.append(("names/value", "%s: .%s is missing" % (where, k)))
+        want = next(kk for kk, vv in m.items() if vv == v)
+        if e[equal_copy(v)] != want:
+            out.append(("names/reverse_lookup", "%s: reverse lookup of %r -> %r, expected %r" % (where, v, e[equal_copy(v)], want)))
+    return out
+
+
 def partitions(tier):
     # chunk c explores the histories whose first operation has index c mod NCHUNK (de-duplication is per partition)
-    return [[i, c] for i in range(len(INITS)) for c in range(NCHUNK)]
+    return [[i, c] for i in range(len(INITS)) for c in range(NCHUNK)] + [["names", 0]]
 
 
 def build(init, hist, vals):
@@ -180,6 +213,8 @@ def canon(enums, vals):
 
 def run_case(case):
     """case = [init index, history, nvalues]"""
+    if case[0] == "names":
+        return check_names(case[1], case[2], case[3])
     idx, hist, nv = case
     vals = values(nv)
     enums, models, v = build(INITS[idx], [tuple(o) for o in hist], vals)
@@ -195,6 +230,20 @@ def run_partition(part, tier, seed):
     acc = Acc(seed)
     b = bounds(tier)
     vals = values(b["values"])
+    if part[0] == "names":
+        for form in ("kw", "dict"):
+            for name in PARAM_LIKE_NAMES + NAMES:
+                for shape in ("single", "pair", "nested"):
+                    case = ["names", form, name, shape]
+                    acc.case(case, nontrivial=True, key=tuple(case))
+                    v = check_names(form, name, shape)
+                    acc.transitions += 1
+                    acc.traces += 1
+                    for k, w in v:
+                        acc.violation(k, w, case)
+                    acc.outcome((tuple(case), tuple(k for k, _ in v)))
+        acc.stateset.add(hash("names"))
+        return acc
     idx, chunk = part
     ops = []
     for which in (0, 1):
